@@ -4,6 +4,7 @@ import inspect
 import itertools
 import sys
 import textwrap
+import threading
 import typing
 from collections import OrderedDict, defaultdict
 from dataclasses import dataclass, field, replace
@@ -109,7 +110,7 @@ class LazySignature(inspect.Signature):
 
 def bootstrap_dispatch(ov, name):
     def first_entry(*args, **kwargs):
-        ov.compile()
+        ov.ensure_compiled()
         return ov.dispatch(*args, **kwargs)
 
     dispatch = FunctionType(
@@ -368,6 +369,7 @@ class Ovld:
         """Initialize an Ovld."""
         self.id = next(_current_id)
         self._compiled = False
+        self._lock = threading.RLock()
         self.linkback = linkback
         self.children = []
         self.allow_replacement = allow_replacement
@@ -487,7 +489,11 @@ class Ovld:
 
     def ensure_compiled(self):
         if not self._compiled:
-            self.compile()
+            # Several threads may make the first call at the same time: only
+            # one of them builds, the others wait for it
+            with self._lock:
+                if not self._compiled:
+                    self.compile()
 
     def compile(self):
         """Finalize this overload.
@@ -500,7 +506,8 @@ class Ovld:
         modification.
         """
         try:
-            self._compile()
+            with self._lock:
+                self._compile()
         except BaseException:
             # Never leave a half-built function in service: go back to the
             # "not built yet" state, so that the next use starts over (and
@@ -625,8 +632,7 @@ class Ovld:
             return ov
 
     def __get__(self, obj, cls):
-        if not self._compiled:
-            self.compile()
+        self.ensure_compiled()
         return self.dispatch.__get__(obj, cls)
 
     @_setattrs(rename="dispatch")
@@ -635,8 +641,7 @@ class Ovld:
 
         This should be replaced by an auto-generated function.
         """
-        if not self._compiled:
-            self.compile()
+        self.ensure_compiled()
         return self.dispatch(*args, **kwargs)
 
     @_setattrs(rename="next")
